@@ -14,6 +14,11 @@ def snap_obj(o):
         if hasattr(o, a):
             v = getattr(o, a)
             d[a] = v.tobytes() + str(v.shape).encode() if isinstance(v, np.ndarray) else repr(v)
+    for a in ("_status_open", "_status_open_data", "_status_disconnected", "_status_disconnected_data", "_status_selfintersecting",
+              "_status_selfintersecting_data", "_status_reoriented"):
+        if hasattr(o, a):  # TriangularMesh: results of the (possibly skipped) validity checks are part of the object's state
+            v = getattr(o, a)
+            d[a] = (np.asarray(v).tobytes() + str(np.shape(v)).encode()) if isinstance(v, (np.ndarray, list)) else repr(v)
     if hasattr(o, "_children"):
         d["children"] = [id(c) for c in o._children]
         d["sources"] = [id(c) for c in o._sources]
@@ -58,7 +63,7 @@ def sweep(ctx, n):
 
     rng, fails, done, kinds = ctx.rng, [], 0, {}
     FAULTS = ["none-ok", "missing-dimension", "missing-excitation", "custom-raise", "custom-none", "custom-shape", "custom-scalar",
-              "custom-no-H", "custom-no-func", "bad-pixel-agg", "bad-output", "bad-in_out", "pixel-shapes", "bad-observer", "dict-kwargs-mix", "left-handed-tetra"]
+              "custom-no-H", "custom-no-func", "bad-pixel-agg", "bad-output", "bad-in_out", "pixel-shapes", "bad-observer", "dict-kwargs-mix", "left-handed-tetra", "unchecked-mesh"]
     for i in range(n):
         nps = np.random.default_rng(rng.randrange(2**31))
         fault = FAULTS[i % len(FAULTS)]
@@ -102,6 +107,16 @@ def sweep(ctx, n):
             obs_in = [sens[0], "nonsense"]
         elif fault == "dict-kwargs-mix":
             kw["diameter"] = 3.0
+        elif fault == "unchecked-mesh":
+            # a TriangularMesh whose validity checks were all skipped at construction (closed or with one face missing)
+            from oracles.sources import CUBE12
+            dd = nps.uniform(0.5, 1.5, 3)
+            vv = np.array([[x, y, z] for x in (-1, 1) for y in (-1, 1) for z in (-1, 1)]) * dd / 2
+            ff = CUBE12 if rng.random() < 0.6 else CUBE12[:-1]
+            srcs.append(magpy.magnet.TriangularMesh(vertices=vv, faces=ff, polarization=nps.uniform(-1, 1, 3), check_open="skip", check_disconnected="skip",
+                                                    check_selfintersecting="skip", reorient_faces="skip"))
+            field = rng.choice(["B", "B", "H"])
+            expect_fail = False
         elif fault == "left-handed-tetra":
             v = np.array([(0, 0, 0), (1, 0, 0), (0, 0, 1), (0, 1, 0)], float) * nps.uniform(0.5, 2)
             srcs.append(magpy.magnet.Tetrahedron(vertices=v, polarization=(0.1, 0.2, 0.3)))
